@@ -92,7 +92,8 @@ def both(cls_name, kw, inp, want_fn, allow_no_emitter=False):
 M = "graphiq.metrics:"
 BOUND = (
     "all circuits of <= 2 ops over the full alphabet (7 one-qubit gates, 3 wrappers, MeasurementZ, CNOT, CZ, classical CNOT/CZ, "
-    "measure-reset on every ordered register pair) and <= 3 ops over a reduced alphabet on (2e,1p,1c), built with add(); "
+    "measure-reset on every ordered register pair) on (2e,1p,1c) and (1e,2p,2c), 3 ops over a reduced alphabet on (2e,1p,1c) "
+    "(thorough: also (1e,2p,2c), (2e,2p,1c)), the 17 operation-free circuits on <= 2+2+1 registers, built with add(); "
     "300 (thorough 3000) seeded random circuits of <= 12 ops on <= (3e,3p,2c) built with add(); 60 (thorough 600) circuits "
     "produced by random add/insert_at/remove_op/copy histories; each with default and explicit penalty"
 )
@@ -277,10 +278,14 @@ def run(tier, seed):
     red = alphabet(regs, False)
     circuits = [{"regs": regs, "ops": list(t)} for k in range(3) for t in itertools.product(full, repeat=k)]
     circuits += [{"regs": regs, "ops": list(t)} for t in itertools.product(red, repeat=3)]
+    regs2 = [1, 2, 2]
+    circuits += [{"regs": regs2, "ops": list(t)} for k in (1, 2) for t in itertools.product(alphabet(regs2, True), repeat=k)]
     if thorough:
-        regs2 = [1, 2, 2]
-        circuits += [{"regs": regs2, "ops": list(t)} for k in (1, 2) for t in itertools.product(alphabet(regs2, True), repeat=k)]
         circuits += [{"regs": regs2, "ops": list(t)} for t in itertools.product(alphabet(regs2, False), repeat=3)]
+        circuits += [{"regs": [2, 2, 1], "ops": list(t)} for t in itertools.product(alphabet([2, 2, 1], False), repeat=3)]
+    # circuits without operations on every small register layout, and the fixed circuits of metrics.default_construction
+    circuits += [{"regs": [a, b, c], "ops": []} for a in range(3) for b in range(3) for c in range(2) if a + b + c > 0]
+    circuits += FIXED
     rng = np.random.default_rng([seed, 1818])
     for j in range(3000 if thorough else 300):
         rg = [(2, 1, 1), (1, 2, 2), (3, 3, 2), (2, 2, 1), (0, 2, 1), (1, 0, 1)][j % 6]
